@@ -146,6 +146,10 @@ func (w *c11World) action(f *world.FakeServer, outcome string, t *rapid.T) world
 		for _, k := range w.keys {
 			if k != f.Key.Pub && rapid.Bool().Draw(t, "banIt") {
 				e := ref.AuthServer{PublicKey: k, Banned: true, Location: "127.0.0.1", TcpPort: 1, UdpPort: w.sink.Port}
+				if rapid.Bool().Draw(t, "banByKeyOnly") {
+					// a ban order that names the server by its key only (no location, no ports)
+					e = ref.AuthServer{PublicKey: k, Banned: true}
+				}
 				e.Sig = ref.Sign(w.gca, e.SigningBytes())
 				entries = append(entries, e)
 			}
